@@ -4,18 +4,24 @@ from ..symex import Obj, PList, Seq, Vec, Raised, flatten, Fn, Opaque, _Range
 from ..source import Unsupported
 
 KG = 'kg/(m2*h*kPa)'
+ACCESSED = {}
+LAST = []
 
 
 def experiments_of(component, n, stated, units=KG, tag='x'):
     """the experiments of one component as a list of symbolic length n: element i has temperature xT(i), permeance xP(i)
     (class invariant value >= 0), activation energy xEa(i) or None"""
     cl = flatten(component.f['name'])
+    accessed = []
     def fn(i):
         i = lift(i)
+        if i.op != 'c' and i not in accessed: accessed.append(i)
         return Obj('IdealExperiment', dict(name=Opaque('name'), temperature=app(tag + 'T', i, *cl), component=component,
                                            permeance=Obj('Permeance', dict(value=app(tag + 'P', i, *cl), units=units)),
                                            activation_energy=app(tag + 'Ea', i, *cl) if stated else None, comment=None))
-    return Seq(n, fn, tag=(tag, component.f['name']))
+    q = Seq(n, fn, tag=(tag, component.f['name']))
+    ACCESSED[id(q)] = accessed; LAST.append(accessed)
+    return q
 
 
 def penetrant_data_contract(n, stated, units=KG):
@@ -24,7 +30,7 @@ def penetrant_data_contract(n, stated, units=KG):
     def c(ex, b):
         comp = b['component']
         seq = experiments_of(comp, n, stated, units)
-        i = var('i_any', 'I')
+        ex.exp_accessed = ACCESSED[id(seq)]
         return Obj('IdealExperiments', dict(experiments=seq))
     return c
 
@@ -43,6 +49,17 @@ def min_key_contract(ex, b):
     ex.assume(band(cmp('>=', idx, 0), cmp('<', idx, n)), 'min(key=): result is an element of the range')
     ex.argmin = dict(idx=idx, key=key, n=n)
     return idx
+
+
+def searchsorted_contract(ex, b):
+    """assumed contract of numpy.searchsorted(a, v): an insertion index in [0, len(a)]; its ordering guarantee only holds for a
+    sorted `a`, which the callers here cannot assume (experiments come in any order)"""
+    a = b['args'][0]
+    n = a.n if isinstance(a, Seq) else lift(len(a.items)) if isinstance(a, PList) else None
+    if n is None: raise Unsupported("searchsorted on %r" % (a,))
+    ss = ex.fresh('ss', 'I')
+    ex.assume(band(cmp('>=', ss, 0), cmp('<=', ss, n)), 'numpy.searchsorted: insertion index')
+    return ss
 
 
 def activation_energy_contract(ex, b):
